@@ -62,7 +62,7 @@ Mode  == IOEnv.MODE
 
 VARIABLES tid,     \* batch index
           l,       \* trace mode: index of the current iterate event (0 before Start); mc mode: 0
-          phase,   \* trace: "init" | "improved" | "evaluated" | "converged" | "capped"; mc: "run" | "done"
+          phase,   \* trace: "init" | "improved" | "evaluated" | "converged" | "capped"; mc: "improved" | "evaluated" | "done"
           fails,   \* trace: failure records of statement clauses (on the returned, converged iterate)
           flags,   \* trace: implementation-shaped observations (drift) and recorder sanity
           sup,     \* mc: support sets of the current (uniform over ties) policy
@@ -175,8 +175,10 @@ SmallBad(T, e, s, a) ==
       lam == LamMul(T, s, LSmall(T, s, a) - e.L[s][r] + EUnits(e, s, r))
   IN (e.q[s][a] - e.q[s][r]) > lam + CeilLam(T, s) + 4 + F32(lam)
 \* V = prior-weighted log-sum-exp of Q:  v = q_a - lambda L_a for every judged a
+\* (an integer weight is used exactly by the evaluation and as the float32 reciprocal by the softmax: the two
+\*  temperatures differ by 2^-24 relative, which moves v by at most 2^-24 lambda KL(pi | prior) <= lambda / 4 units)
 LseTol(T, e, s, a) == LamMul(T, s, EUnits(e, s, a)) + 1 + Delta(T, e, s) + CeilLam(T, s) + 4
-                      + F32(LamMul(T, s, e.L[s][a]))
+                      + F32(LamMul(T, s, e.L[s][a])) + (CeilLam(T, s) \div 4) + 1
 FixFails(T, e, j) ==
   {FR("policy-not-softmax-of-action-values", j, x[1], x[2][1], x[2][2],
       SoftRes(T, e, x[1], x[2][1], x[2][2]),
@@ -202,7 +204,7 @@ QStarU(T) == LET vs == OptimalValue(T)  qs == OptimalQ(T, vs)
              IN TLCEval([s \in St(T) |-> [a \in Ac(T) |-> ScaleRat(qs[s][a])]])
 LimitFails(T, e, j) ==
   IF T.orc = 0 \/ T.unif = 0 THEN {}
-  ELSE LET qs == QStarU(T)  B == LimitB(T)  sl == ResidSlack(T, e) IN
+  ELSE LET qs == QStarU(T)  B == LimitB(T)  sl == ResidSlack(T, e) + F32(LimitB(T)) IN
        {FR("action-values-above-optimal", j, x[1], x[2], 0, e.q[x[1]][x[2]] - qs[x[1]][x[2]], sl + 2) :
            x \in {y \in St(T) \X Ac(T) : e.q[y[1]][y[2]] > qs[y[1]][y[2]] + sl + 2}}
        \cup {FR("action-values-farther-from-optimal-than-bound", j, x[1], x[2], 0,
@@ -300,20 +302,27 @@ MInit ==
   /\ Mode = "mc"
   /\ tid \in 1..Len(Batch)
   /\ sup \in Supports(Batch[tid])
-  /\ V = PolicyValue(Batch[tid], W12(Batch[tid], sup), 12)
-  /\ l = 0 /\ phase = "run" /\ fails = {} /\ flags = {}
+  /\ V = <<>>                       \* nothing evaluated yet (the oracle stays out of Init: TLC evaluates Init on one thread)
+  /\ l = 0 /\ phase = "improved" /\ fails = {} /\ flags = {}
 
-MStep ==
-  /\ Mode = "mc" /\ phase = "run"
+\* Evaluate at lambda -> 0+: lambda KL vanishes, v is the exact value of the uniform-over-`sup` policy
+MEvaluate ==
+  /\ Mode = "mc" /\ phase = "improved"
+  /\ V' = PolicyValue(Tr, W12(Tr, sup), 12)
+  /\ phase' = "evaluated"
+  /\ UNCHANGED <<tid, l, fails, flags, sup>>
+
+\* Improve at lambda -> 0+: softmax(q / lambda) -> uniform over the maximisers; Converge when the policy repeats
+MImprove ==
+  /\ Mode = "mc" /\ phase = "evaluated"
   /\ LET q  == QTab(Tr, V)
          ns == [s \in St(Tr) |-> ArgMax(Tr, q, s)]
-     IN IF ns = sup THEN phase' = "done" /\ UNCHANGED <<sup, V>>
-        ELSE /\ sup' = ns /\ phase' = "run"
-             /\ V' = PolicyValue(Tr, W12(Tr, ns), 12)
-  /\ UNCHANGED <<tid, l, fails, flags>>
+     IN IF ns = sup THEN phase' = "done" /\ sup' = sup
+        ELSE sup' = ns /\ phase' = "improved"
+  /\ UNCHANGED <<tid, l, fails, flags, V>>
 
 Init == TInit \/ MInit
-Next == Start \/ Evaluate \/ Improve \/ Converge \/ Cap \/ MStep
+Next == Start \/ Evaluate \/ Improve \/ Converge \/ Cap \/ MEvaluate \/ MImprove
 Spec == Init /\ [][Next]_vars
 
 \* ------------------------------------------------------------------ emission
@@ -334,10 +343,10 @@ ZeroTempOptimal ==
      /\ \A s \in St(Tr) : sup[s] = {a \in Ac(Tr) : REq(oq[s][a], o[s])}
 SupportsNonEmpty == Mode = "mc" => \A s \in St(Tr) : sup[s] # {}
 \* policy improvement is monotone (hence the loop cannot cycle and MC terminates without a counter)
-MonotoneImprovement == [][Mode = "mc" => \A s \in St(Tr) : RLeq(V[s], V'[s])]_vars
+MonotoneImprovement == [][(Mode = "mc" /\ V # <<>> /\ V' # V) => \A s \in St(Tr) : RLeq(V[s], V'[s])]_vars
 \* every explored value stays inside the reward bounds max|R| / (1 - gamma)
 MCWithinRewardBounds ==
-  Mode = "mc" => \A s \in St(Tr) : RLeq(RAbs(V[s]), <<RAbsMax(Tr) * Tr.GD, Tr.GD - Tr.GN>>)
+  (Mode = "mc" /\ V # <<>>) => \A s \in St(Tr) : RLeq(RAbs(V[s]), <<RAbsMax(Tr) * Tr.GD, Tr.GD - Tr.GN>>)
 \* instance filter: the quantifier of the property (row-stochastic tensor, no absorbing states, discount in (0,1),
 \* positive entropy weights, prior on the open simplex) and the ranges the arithmetic above relies on
 InstancesOK ==
